@@ -506,7 +506,10 @@ def _fill_diag(a, k):
 def stacking():
     out = []
     cases = [((3,), (2,), 0), ((2, 3), (1, 3), 0), ((2, 3), (2, 1), 1), ((2, 3), (2, 2), 0), ((3,), (3,), 1), ((), (), 0),
-             ((2, 2, 3), (2, 1, 3), 1), ((2, 2, 3), (2, 2, 1), 2), ((2, 3), (3,), 0)]
+             ((2, 2, 3), (2, 1, 3), 1), ((2, 2, 3), (2, 2, 1), 2), ((2, 3), (3,), 0),
+             # leading dimension 1 (a batch of one), joined along a trailing / negative axis; 4-D
+             ((1, 2, 3), (1, 2, 1), 2), ((1, 2, 3), (1, 2, 2), -1), ((1, 2, 2), (1, 1, 2), 1), ((1, 2, 2), (1, 1, 2), -2),
+             ((1, 1, 2, 2), (1, 1, 2, 1), 3), ((2, 1, 2), (2, 1, 1), -1), ((1, 2, 1, 2), (1, 2, 2, 2), 2)]
     for sx, sy, ax in cases:
         def se(c, sx=sx, sy=sy):
             env = Env(c, sx, sy)
